@@ -9,7 +9,7 @@ rsync -a --delete --exclude target --exclude .git /repo/ $R/repo/
 rsync -a --delete --exclude harness/target --exclude harness/fuzz/target --exclude out --exclude .git --exclude evidence /verif/ $R/verif/
 mkdir -p $R/verif/evidence $R/verif/out
 sed -i "s#\"/repo/#\"$R/repo/#g" $R/verif/harness/Cargo.toml
-sed -i "s#cd /repo \&\&#cd $R/repo \&\&#" $R/verif/check
+sed -i "s#^REPO_DIR=/repo#REPO_DIR=$R/repo#" $R/verif/check
 cp "$R/repo/$F" /tmp/private_mut_before
 sed -i "$E" "$R/repo/$F"
 if cmp -s "$R/repo/$F" /tmp/private_mut_before; then echo "MUTATION DID NOT APPLY"; exit 3; fi
